@@ -185,11 +185,12 @@ class Cell:
         self.args = None         # the arguments the user method was invoked with, rendered in the shape of `ref`
 
 
-def instrument(srvinfo, cell):
-    """instance of the generated server class with scripted user methods and an observed handle()"""
+def instrument(srvinfo, cell, subclass=None):
+    """instance of the generated server class with scripted user methods and an observed handle();
+    `subclass`: cls -> the user's subclass of the generated class to instantiate instead (harness/c11_objects.py)"""
     mod = importlib.import_module("nintendo.nex." + srvinfo["module"])
     cls = getattr(mod, srvinfo["class"])
-    srv = cls()
+    srv = (subclass(cls) if subclass else cls)()
     b = builder(srvinfo["module"])
     def make_user(m):
         stub = getattr(srv, m["user"])
@@ -203,6 +204,7 @@ def instrument(srvinfo, cell):
                 else:
                     cell.args = FR.describe(args)
             for _ in range(sc.get("yields", 0)): await anyio.sleep(0)
+            if sc.get("delay_ms") is not None: await anyio.sleep(sc["delay_ms"] / 1000.0)    # (virtual time: c11_objects.py)
             mode = sc["mode"]
             if mode == "stub": return await stub(client, *args)
             if mode == "raise":
